@@ -587,6 +587,12 @@ class PteraTransformer(NodeTransformer):
             node,
         )
 
+    def visit_ClassDef(self, node):
+        # Like nested functions, nested classes are left alone: the
+        # variables of a class body are not variables of this function
+        # (and __ptera_* names would be mangled inside a class body).
+        return node
+
     def visit_For(self, node):
         new_body = self.generate_interactions(node.target)
         new_body.extend(self.visit_body(node.body))
